@@ -33,6 +33,8 @@ def _gen_message(rng, hot):
     for _ in range(n):
         pos = rng.choice(hot) if rng.random() < 0.7 else rng.randrange(0, 1023)
         pos = min(pos, 1022)
+        if rng.random() < 0.06:
+            pos = 1023          # a word record at the block's last byte: its first byte is the block's, the second is not
         out.append((pos, bytes([rng.randrange(256), rng.randrange(256)])))
     return out
 
@@ -89,7 +91,7 @@ def _history_async(rng, n_msgs, rank, p_msg=0.62):
             if not s.quiesce():
                 raise env.MachineryError("connection never became quiescent")
             for x in w.take():
-                ev.append({"k": "refresh", "off": x["pos"], "data": x["data"]})
+                ev.append({"k": "refresh", "off": x["pos"], "data": x["data"][:max(0, 1024 - x["pos"])]})
 
         def do_msg(ch):
             settle()
@@ -114,7 +116,7 @@ def _history_async(rng, n_msgs, rank, p_msg=0.62):
                        "queue": [{k: (v if k != "data" else v[:24].decode("latin1")) for k, v in e.items()}
                                  for e in tap.log[ntap:]][:14]})
             for x in others:
-                ev.append({"k": "refresh", "off": x["pos"], "data": x["data"]})
+                ev.append({"k": "refresh", "off": x["pos"], "data": x["data"][:max(0, 1024 - x["pos"])]})
 
         def do_silent(pos, v):
             settle()
@@ -129,7 +131,7 @@ def _history_async(rng, n_msgs, rank, p_msg=0.62):
                 lambda: GeckoStatusBlockProtocolHandler.request(
                     spa._protocol.get_and_increment_sequence_counter(False), off, ln, parms=spa.sendparms)))
             for x in w.take():
-                ev.append({"k": "refresh", "off": x["pos"], "data": x["data"]})
+                ev.append({"k": "refresh", "off": x["pos"], "data": x["data"][:max(0, 1024 - x["pos"])]})
             # the call's return: a refresh that reports success has made the range equal the spa's
             ev.append({"k": "got", "off": off, "len": ln, "ok": bool(ok)})
 
@@ -185,7 +187,7 @@ def _history_async(rng, n_msgs, rank, p_msg=0.62):
                         ev.append(msg)
                         placed = True
                 else:
-                    ev.append({"k": "refresh", "off": x["pos"], "data": x["data"]})
+                    ev.append({"k": "refresh", "off": x["pos"], "data": x["data"][:max(0, 1024 - x["pos"])]})
             if not placed:
                 ev.append(msg)
             ev.append({"k": "got", "off": off, "len": ln, "ok": bool(ok)})
@@ -245,7 +247,7 @@ def _history_async(rng, n_msgs, rank, p_msg=0.62):
                        "acks": _acks(d for (_, d, _) in tr.sent[nsent:]), "before_final_segment": True,
                        "n": part[0]["n"] if part else 0, "queue": []})
             for x in refr:
-                ev.append({"k": "refresh", "off": x["pos"], "data": x["data"], "n": x["n"]})
+                ev.append({"k": "refresh", "off": x["pos"], "data": x["data"][:max(0, 1024 - x["pos"])], "n": x["n"]})
             ev.append({"k": "got", "off": off, "len": ln, "ok": bool(ok), "raced": True})
 
         def do_msg_before_ping(delta):
@@ -289,7 +291,7 @@ def _history_async(rng, n_msgs, rank, p_msg=0.62):
                         ev.append(msg)
                         placed = True
                 else:
-                    ev.append({"k": "refresh", "off": x["pos"], "data": x["data"]})
+                    ev.append({"k": "refresh", "off": x["pos"], "data": x["data"][:max(0, 1024 - x["pos"])]})
             if not placed:
                 ev.append(msg)
 
@@ -328,7 +330,7 @@ def _history_async(rng, n_msgs, rank, p_msg=0.62):
                 elif "Partial" in x["by"]:
                     ev[-1]["applied"].append({"pos": x["pos"], "data": x["data"]})
                 else:
-                    ev.append({"k": "refresh", "off": x["pos"], "data": x["data"]})
+                    ev.append({"k": "refresh", "off": x["pos"], "data": x["data"][:max(0, 1024 - x["pos"])]})
             while j < K:
                 ev.append(msg(j, []))
                 j += 1
@@ -376,9 +378,9 @@ def _history_async(rng, n_msgs, rank, p_msg=0.62):
                 off = max(0, pos - rng.randrange(0, 40))
                 do_get(off, min(rng.choice([1, 2, 39, 40, 100]), 1024 - off))
         for x in w.take():
-            ev.append({"k": "refresh", "off": x["pos"], "data": x["data"]})
-        ev.append({"k": "final", "block": list(spa.struct.status_block)})
-        return {"init": init, "ev": ev, "variant": "async", "rank": rank}
+            ev.append({"k": "refresh", "off": x["pos"], "data": x["data"][:max(0, 1024 - x["pos"])]})
+        ev.append({"k": "final", "block": list(spa.struct.status_block[:1024])})
+        return {"init": init[:1024], "ev": ev, "variant": "async", "rank": rank}
 
 
 def _history_sync(rng, n_msgs, p_msg=0.62):
@@ -464,7 +466,7 @@ def _history_sync(rng, n_msgs, p_msg=0.62):
                        "applied": [{"pos": x["pos"], "data": x["data"]} for x in part],
                        "acks": _acks(s.wire()[box["nsent"]:]), "during_lossy_refresh": True})
             for x in refr:
-                ev.append({"k": "refresh", "off": x["pos"], "data": x["data"]})
+                ev.append({"k": "refresh", "off": x["pos"], "data": x["data"][:max(0, 1024 - x["pos"])]})
             ev.append({"k": "got", "off": b0, "len": min(spa.new_log_class.end, 1024 - b0), "ok": True})
 
         for i in range(n_msgs):
@@ -473,7 +475,7 @@ def _history_sync(rng, n_msgs, p_msg=0.62):
                 if not s.settle():
                     raise env.MachineryError("threaded session never became quiescent before the lossy refresh step")
                 for x in w.take():
-                    ev.append({"k": "refresh", "off": x["pos"], "data": x["data"]})
+                    ev.append({"k": "refresh", "off": x["pos"], "data": x["data"][:max(0, 1024 - x["pos"])]})
                 lossy_refresh_with_change()
                 continue
             if not s.settle():
@@ -482,7 +484,7 @@ def _history_sync(rng, n_msgs, p_msg=0.62):
                     "due": [(round(r["wake"] - s.w2.clock.t, 2), r["done"]) for r in s.w2.coop.recs],
                     "handlers": [(type(h).__name__, getattr(h, "_retry_count", None), bool(h.should_remove_handler)) for h in s.spa._receive_handlers]}))
             for x in w.take():
-                ev.append({"k": "refresh", "off": x["pos"], "data": x["data"]})
+                ev.append({"k": "refresh", "off": x["pos"], "data": x["data"][:max(0, 1024 - x["pos"])]})
             nsent = len(s.sock.wire)
             if r < p_msg:
                 ch = _gen_message(rng, hot)
@@ -505,13 +507,13 @@ def _history_sync(rng, n_msgs, p_msg=0.62):
                     raise env.MachineryError("the ping thread did not refresh within 200 s")
                 inst = w.take()
                 for x in inst:
-                    ev.append({"k": "refresh", "off": x["pos"], "data": x["data"]})
+                    ev.append({"k": "refresh", "off": x["pos"], "data": x["data"][:max(0, 1024 - x["pos"])]})
                 # fire-and-forget in this stack: completion is known because the stepped network loses
                 # nothing and the engine has drained; the range is the one refresh() asks for
                 b = spa.new_log_class.begin
                 ev.append({"k": "got", "off": b, "len": min(spa.new_log_class.end, 1024 - b), "ok": True})
-        ev.append({"k": "final", "block": list(spa.struct.status_block)})
-        return {"init": init, "ev": ev, "variant": "sync"}
+        ev.append({"k": "final", "block": list(spa.struct.status_block[:1024])})
+        return {"init": init[:1024], "ev": ev, "variant": "sync"}
 
 
 def run(ctx):
@@ -578,7 +580,8 @@ def run(ctx):
     ev.sample({"history": logs[0]["variant"], "events": [
         {k: v for k, v in e.items() if k not in ("block",)} for e in logs[0]["ev"][:5]]})
     ev.assumptions += [
-        "2-byte records at the last block position are not generated (they would grow the block)",
+        "a word record at the block's last byte is judged on the byte that lies inside the block (positions 0..1023); that the "
+        "client's copy grows by the other byte is not examined",
         "the 1-byte record form is only generated as the sole record of a message (the form the simulator emits)",
         "installs are observed by wrapping replace_status_block_segment on the structure instance",
     ]
